@@ -34,6 +34,11 @@ def check(ctx):
     with ctx.only(lambda k: k.startswith("container/ModuleIR")):
         c06.containers(ctx)
     G.module_template(ctx, "C02.10")
+    # a reference to a same-path item type-checks against the KEPT definition only if the merge was justified: the shape comparator compares every
+    # shape-bearing field and every list length of both operands (shared with C03)
+    from . import c03
+    with ctx.only(lambda k: k.startswith("comparator-coverage/") or k.startswith("comparator-length/") or k.startswith("comparator-arm/")):
+        c03.comparator(ctx, "C02.9")
     G.keep_first_or_error(ctx, "C02.9")
     # closure of references: a type is skipped by the definer iff `substitutes.contains(path)`; it is referenced through its substitute iff the
     # look-up answers Some. The two must agree on every key of the map (same key, no extra condition on the look-up), else a reference falls back
